@@ -8,6 +8,8 @@
 --    96-bit reduction tail is correct modulo p, returns a 64-bit word, can return a NON-canonical
 --    word (witness), and `add_constants` brings any 64-bit word back into [0, p).
 --    NOT proved: the plumbing of `mds_multiply` itself (`mds_multiply_glue`, a `def : Prop`).
+--    Under that hypothesis, one full round of Rp64_256 / RpJive64_256 on raw words denotes the
+--    reference round on residues (`round_*_denotes_reference_partial`).
 --  * (2) S-boxes (on top of C07's `val` / `Inv`): `exp7` / `cube` denote `x^7` / `x^3`, the inverse
 --    S-box chains denote `x^INV_ALPHA`, `alpha * inv_alpha = 1 (mod p - 1)`, and by Fermat the two
 --    S-boxes invert each other on every residue, zero included, for all three instances.
@@ -24,6 +26,8 @@ import WinterProofs.Lemmas.C11Sponge
 import WinterProofs.Lemmas.C11Misc
 import WinterProofs.Lemmas.C11Sbox
 import WinterProofs.Lemmas.C11MergeInt
+import WinterProofs.Lemmas.C11Round12
+import WinterProofs.Lemmas.C11Round8
 
 namespace WinterProofs.C11
 open Gen Model Model.Rescue
@@ -160,6 +164,51 @@ theorem sbox62_inverse (x : Nat) (hx : F62Z.Inv x) :
 -- both representatives of zero, and a non-normalised word
 example : F62Z.Inv 0 ∧ F62Z.Inv 4611624995532046337 ∧ F62Z.Inv 9223249991064092673 := by
   unfold F62Z.Inv; decide
+
+/-- Rp64_256: one round on valid raw words, with round constants whose raw words are `<= p - 2^32`
+    (all constants of the tables are: `round_constants_small`), yields valid raw words and denotes
+    the reference round on residues (S-box `x^7`, matrix-vector product with the `MDS` table,
+    constants, `x^INV_ALPHA`, MDS, constants).  PARTIAL: under the plumbing hypothesis
+    `mds_multiply_glue`, which is not proved in Lean and is covered by the correspondence only. -/
+theorem round_rp64_denotes_reference_partial (hglue : mds_multiply_glue)
+    (x0 x1 x2 x3 x4 x5 x6 x7 x8 x9 x10 x11 a0 a1 a2 a3 a4 a5 a6 a7 a8 a9 a10 a11 b0 b1 b2 b3 b4 b5 b6 b7 b8 b9 b10 b11 : Nat) (hx0 : F64Z.Inv x0) (hx1 : F64Z.Inv x1) (hx2 : F64Z.Inv x2) (hx3 : F64Z.Inv x3) (hx4 : F64Z.Inv x4) (hx5 : F64Z.Inv x5) (hx6 : F64Z.Inv x6) (hx7 : F64Z.Inv x7) (hx8 : F64Z.Inv x8) (hx9 : F64Z.Inv x9) (hx10 : F64Z.Inv x10) (hx11 : F64Z.Inv x11)
+    (ha0 : a0 ≤ 18446744065119617025) (ha1 : a1 ≤ 18446744065119617025) (ha2 : a2 ≤ 18446744065119617025) (ha3 : a3 ≤ 18446744065119617025) (ha4 : a4 ≤ 18446744065119617025) (ha5 : a5 ≤ 18446744065119617025) (ha6 : a6 ≤ 18446744065119617025) (ha7 : a7 ≤ 18446744065119617025) (ha8 : a8 ≤ 18446744065119617025) (ha9 : a9 ≤ 18446744065119617025) (ha10 : a10 ≤ 18446744065119617025) (ha11 : a11 ≤ 18446744065119617025)
+    (hb0 : b0 ≤ 18446744065119617025) (hb1 : b1 ≤ 18446744065119617025) (hb2 : b2 ≤ 18446744065119617025) (hb3 : b3 ≤ 18446744065119617025) (hb4 : b4 ≤ 18446744065119617025) (hb5 : b5 ≤ 18446744065119617025) (hb6 : b6 ≤ 18446744065119617025) (hb7 : b7 ≤ 18446744065119617025) (hb8 : b8 ≤ 18446744065119617025) (hb9 : b9 ≤ 18446744065119617025) (hb10 : b10 ≤ 18446744065119617025) (hb11 : b11 ≤ 18446744065119617025) :
+    (∀ e ∈ roundWith rp64 [x0, x1, x2, x3, x4, x5, x6, x7, x8, x9, x10, x11] [a0, a1, a2, a3, a4, a5, a6, a7, a8, a9, a10, a11] [b0, b1, b2, b3, b4, b5, b6, b7, b8, b9, b10, b11], F64Z.Inv e) ∧
+    (roundWith rp64 [x0, x1, x2, x3, x4, x5, x6, x7, x8, x9, x10, x11] [a0, a1, a2, a3, a4, a5, a6, a7, a8, a9, a10, a11] [b0, b1, b2, b3, b4, b5, b6, b7, b8, b9, b10, b11]).map F64Z.val
+      = Round12.refRound ([x0, x1, x2, x3, x4, x5, x6, x7, x8, x9, x10, x11].map F64Z.val) ([a0, a1, a2, a3, a4, a5, a6, a7, a8, a9, a10, a11].map F64Z.val) ([b0, b1, b2, b3, b4, b5, b6, b7, b8, b9, b10, b11].map F64Z.val) :=
+  Round12.round_spec hglue.1 x0 x1 x2 x3 x4 x5 x6 x7 x8 x9 x10 x11 a0 a1 a2 a3 a4 a5 a6 a7 a8 a9 a10 a11 b0 b1 b2 b3 b4 b5 b6 b7 b8 b9 b10 b11 hx0 hx1 hx2 hx3 hx4 hx5 hx6 hx7 hx8 hx9 hx10 hx11 ha0 ha1 ha2 ha3 ha4 ha5 ha6 ha7 ha8 ha9 ha10 ha11 hb0 hb1 hb2 hb3 hb4 hb5 hb6 hb7 hb8 hb9 hb10 hb11
+
+/-- RpJive64_256: one round on valid raw words, with round constants whose raw words are `<= p - 2^32`
+    (all constants of the tables are: `round_constants_small`), yields valid raw words and denotes
+    the reference round on residues (S-box `x^7`, matrix-vector product with the `MDS` table,
+    constants, `x^INV_ALPHA`, MDS, constants).  PARTIAL: under the plumbing hypothesis
+    `mds_multiply_glue`, which is not proved in Lean and is covered by the correspondence only. -/
+theorem round_rpjive_denotes_reference_partial (hglue : mds_multiply_glue)
+    (x0 x1 x2 x3 x4 x5 x6 x7 a0 a1 a2 a3 a4 a5 a6 a7 b0 b1 b2 b3 b4 b5 b6 b7 : Nat) (hx0 : F64Z.Inv x0) (hx1 : F64Z.Inv x1) (hx2 : F64Z.Inv x2) (hx3 : F64Z.Inv x3) (hx4 : F64Z.Inv x4) (hx5 : F64Z.Inv x5) (hx6 : F64Z.Inv x6) (hx7 : F64Z.Inv x7)
+    (ha0 : a0 ≤ 18446744065119617025) (ha1 : a1 ≤ 18446744065119617025) (ha2 : a2 ≤ 18446744065119617025) (ha3 : a3 ≤ 18446744065119617025) (ha4 : a4 ≤ 18446744065119617025) (ha5 : a5 ≤ 18446744065119617025) (ha6 : a6 ≤ 18446744065119617025) (ha7 : a7 ≤ 18446744065119617025)
+    (hb0 : b0 ≤ 18446744065119617025) (hb1 : b1 ≤ 18446744065119617025) (hb2 : b2 ≤ 18446744065119617025) (hb3 : b3 ≤ 18446744065119617025) (hb4 : b4 ≤ 18446744065119617025) (hb5 : b5 ≤ 18446744065119617025) (hb6 : b6 ≤ 18446744065119617025) (hb7 : b7 ≤ 18446744065119617025) :
+    (∀ e ∈ roundWith rpjive [x0, x1, x2, x3, x4, x5, x6, x7] [a0, a1, a2, a3, a4, a5, a6, a7] [b0, b1, b2, b3, b4, b5, b6, b7], F64Z.Inv e) ∧
+    (roundWith rpjive [x0, x1, x2, x3, x4, x5, x6, x7] [a0, a1, a2, a3, a4, a5, a6, a7] [b0, b1, b2, b3, b4, b5, b6, b7]).map F64Z.val
+      = Round8.refRound ([x0, x1, x2, x3, x4, x5, x6, x7].map F64Z.val) ([a0, a1, a2, a3, a4, a5, a6, a7].map F64Z.val) ([b0, b1, b2, b3, b4, b5, b6, b7].map F64Z.val) :=
+  Round8.round_spec hglue.2 x0 x1 x2 x3 x4 x5 x6 x7 a0 a1 a2 a3 a4 a5 a6 a7 b0 b1 b2 b3 b4 b5 b6 b7 hx0 hx1 hx2 hx3 hx4 hx5 hx6 hx7 ha0 ha1 ha2 ha3 ha4 ha5 ha6 ha7 hb0 hb1 hb2 hb3 hb4 hb5 hb6 hb7
+
+-- the hypotheses are satisfiable by non-trivial states: e.g. zero and the largest canonical word,
+-- and constants at the bound
+example : F64Z.Inv 0 ∧ F64Z.Inv 18446744069414584320 ∧ (18446744065119617025 : Nat) ≤ 18446744065119617025 := by
+  unfold F64Z.Inv; decide
+
+/-- FULL statement of (1)+(2) composed, NOT proved as such: `apply_permutation` on raw words denotes
+    seven reference rounds with the table constants.  What is proved: each round
+    (`round_*_denotes_reference_partial`, under `mds_multiply_glue`) and that every table constant
+    meets the bound (`round_constants_small`); the induction over the seven rounds with the actual
+    table rows is not carried out.  The 62-bit instance (plain matrix product) is not covered. -/
+def permutation_denotes_reference : Prop :=
+  ∀ st : List Nat, st.length = 12 → (∀ e ∈ st, F64Z.Inv e) →
+    (∀ e ∈ applyPermutation rp64 st, F64Z.Inv e) ∧
+    (applyPermutation rp64 st).map F64Z.val =
+      (List.zip rp64.ark1 rp64.ark2).foldl
+        (fun v k => Round12.refRound v (k.1.map F64Z.val) (k.2.map F64Z.val)) (st.map F64Z.val)
 
 /-! ## (3) Sponge -/
 
